@@ -183,3 +183,64 @@ func TestC07_Spellings(t *testing.T) {
 		r.Case(bx.String(e)+"\x00"+c.Datum.String(), multi && nTexts >= 2, map[string]string{"expr": bx.String(e), "datum": c.Datum.String(), "outcome": out.String()}, classes...)
 	})
 }
+
+// TestC07_OddParts: parts that a selector library may read specially - "-" (RFC 6901: the
+// element after the last), signed / padded / hex / exponent / non-ASCII digits, the empty part,
+// "~", ".", "*", "#" - as the LAST or a MIDDLE part under lists, arrays, maps and structs, with
+// and without an unknown value: every spelling of the selector evaluates alike and as the
+// reference says (exhaustive).
+func TestC07_OddParts(t *testing.T) {
+	r := rec(t, "C07", c07Rule+"; TestC07_OddParts: container kind x odd part (\"-\", \"+0\", \"00\", \"0x0\", \"\", \"~\", \".\", \"*\", non-ASCII digits ...) x position x operator x unknown value, all spellings (exhaustive)")
+	r.Exhaustive = true
+	r.ExhaustiveOf = "container x odd part x {last, middle} x operator form x unknown value x 5 spellings"
+	strT := uni.Scalar(uni.KString)
+	leaf := func(s string) *uni.Node {
+		return &uni.Node{T: uni.MapOf(strT, uni.Iface()), Keys: []*uni.Node{uni.Str("v")}, Elems: []*uni.Node{uni.InIface(uni.Str(s))}}
+	}
+	conts := []*uni.Node{
+		uni.List(uni.SliceOf(uni.Iface()), uni.InIface(leaf("a")), uni.InIface(leaf("b"))),
+		uni.List(uni.SliceOf(leaf("a").T), leaf("a"), leaf("b")),
+		uni.List(uni.ArrayOf(2, leaf("a").T), leaf("a"), leaf("b")),
+		uni.List(uni.SliceOf(uni.Iface())),
+		{T: uni.MapOf(strT, uni.Iface()), Keys: []*uni.Node{uni.Str("-"), uni.Str("0"), uni.Str(""), uni.Str("~")}, Elems: []*uni.Node{uni.InIface(leaf("a")), uni.InIface(leaf("b")), uni.InIface(leaf("c")), uni.InIface(leaf("a"))}},
+		{T: uni.MapOf(uni.Scalar(uni.KInt), leaf("a").T), Keys: []*uni.Node{uni.Int(uni.KInt, 0), uni.Int(uni.KInt, -1)}, Elems: []*uni.Node{leaf("a"), leaf("b")}},
+		{T: uni.StructOf(uni.Field{Name: "A", T: leaf("a").T}, uni.Field{Name: "B", T: leaf("a").T, Tag: `bexpr:"-"`}), Elems: []*uni.Node{leaf("a"), leaf("b")}},
+	}
+	parts := []string{"-", "+0", "00", "0x0", "-0", "1e0", "", " 0", "0 ", "٠", "99", "-1", "0.0", "1_0", "0", "1", "~", "~0", "~1", "a/b", ".", "..", "*", "#", "A", "B", "2"}
+	n := 0
+	for ci, cont := range conts {
+		root := &uni.Node{T: uni.MapOf(strT, uni.Iface()), Keys: []*uni.Node{uni.Str("xs")}, Elems: []*uni.Node{uni.InIface(cont)}}
+		for _, part := range parts {
+			for _, middle := range []bool{false, true} {
+				sp := []string{"xs", part}
+				if middle {
+					sp = append(sp, "v")
+				}
+				sel := bx.Sel{Parts: sp}
+				if !bx.Expressible(sel) {
+					continue
+				}
+				exprs := []bx.Expr{
+					&bx.Match{Sel: sel, Op: bx.OpEq, Lit: "a"}, &bx.Match{Sel: sel, Op: bx.OpNe, Lit: "a"}, &bx.Match{Sel: sel, Op: bx.OpEmpty}, &bx.Match{Sel: sel, Op: bx.OpIn, Lit: "a"},
+					&bx.Match{Sel: sel, Op: bx.OpNotMatches, Lit: "a"},
+					&bx.Quant{Sel: sel, Mode: bx.BindValue, Value: "q", Body: &bx.Match{Sel: bx.Sel{Parts: []string{"q"}}, Op: bx.OpEq, Lit: "a"}},
+					&bx.Quant{All: true, Sel: bx.Sel{Parts: []string{"xs"}}, Mode: bx.BindValue, Value: "q", Body: &bx.Match{Sel: sel, Op: bx.OpNe, Lit: "a"}},
+				}
+				for _, e := range exprs {
+					for _, unk := range []*uni.Node{nil, uni.Str("a"), uni.Str("zz")} {
+						o := Opts{}
+						if unk != nil {
+							o.HasUnknown, o.Unknown = true, unk
+						}
+						c := newEvalCase(bx.String(e), e, root, o)
+						nsp, out := c07Check(t, c, bx.Zero{})
+						n++
+						r.Case(fmt.Sprintf("%d|%s|%v|%s|%s", ci, part, middle, bx.String(e), o), nsp >= 2, map[string]string{"expr": bx.String(e), "container": cont.String(), "part": strconv.Quote(part), "opts": o.String(), "outcome": out.String()},
+							"part:"+strconv.Quote(part), "outcome:"+out.String())
+					}
+				}
+			}
+		}
+	}
+	t.Logf("cases: %d", n)
+}
